@@ -109,7 +109,7 @@ def run(c):
     universe = [(t, i) for t in ("ed", "rsa", "ecdsa") for i in (1, 2)]
     try:
         # ---- TV: seeded larger configurations
-        for n in range(30 if c.quick else 1500):
+        for n in range(15 if c.quick else 1500):
             cfg = random_cfg(rnd)
             cred = rnd.choice(["password", "password", "pkey"])
             obs = cl.run_gate(cfg, str(c.work / "kh"), rnd, cred, universe)
